@@ -6,7 +6,9 @@ _already_wrapped/_mark_wrapped, LineProfiler.__call__/add_callable matched struc
 Tie: every well-formed composition up to a depth bound (exhaustive) plus random deeper
 ones are built as real Python objects, decorated once and twice by a real LineProfiler and
 used through the right access path (direct call, class attribute, instance attribute,
-property get/set/del, cached_property first/second read), from enable depth 0 and 1;
+property get/set/del, cached_property first/second read), from enable depth 0 and 1; every
+generator / coroutine / async-generator result is run to the end, closed early, thrown into and
+dropped while suspended, and its finally: code records the enable depth and is hit-counted;
 compared inside Coq with the model (registration list, structure of the returned objects,
 which functions run at which enable depth, executions) and with the property predicate
 (ran under the profiler, exact hit counts, registered once, second decoration inert)."""
@@ -309,6 +311,8 @@ def run(tier, seed):
                          % scope['exhaustive_chain_depth'],
         random_cases=scope['random'], random_max_depth=scope['random_max_depth'],
         depth_histogram=dh, top_constructor_histogram=th, case_kinds=kh,
+        consumption_modes=(lambda h: h)({m: sum(r.get('modes', []).count(m) for r in outs) * 3
+                                        for m in ('exhaust', 'close', 'throw', 'drop')}),
         accesses_performed=sum(len(r.get('plan', [])) for r in outs) * 3,
         function_runs_observed=sum(len(depths(r['runs1'])) + len(depths(r['runs2'])) + len(depths(r['orig'])) for _, r in ok),
         hypothesis_counts=dict(
@@ -331,7 +335,8 @@ def run(tier, seed):
             'hand-modelled, tied by correspondence only: wrap (rebuilding each wrapper object), register (add_callable), invoke '
             '(Python descriptor / partial / bound-method call semantics, validated on the UNDECORATED object each run)',
             'hit counts come from the tracing engine (C01); here they are only compared with exact execution counts of two '
-            'marker lines per function'])
+            'marker lines per function (the second one inside the finally: clean-up code of generator / coroutine / '
+            'async-generator bodies)'])
     res.assumptions = ['one profiler; compositions Python itself can use (e.g. a property accessor is callable); the functions inside '
                        'one object are pairwise distinct and were not decorated through another object before',
                        'setter / deleter accessors are plain functions (Python discards what they return)']
